@@ -6,7 +6,6 @@ import (
 	"encoding/json"
 	"fmt"
 	"strings"
-	"sync"
 	"time"
 
 	"lcverif/common"
@@ -94,8 +93,7 @@ func (v Ver) String() string {
 }
 
 // the USE dependency text.  order 0: prefix flag suffix default ("f=(+)", the only order the
-// parser accepted when this check was written); order 1: the PMS order "f(+)=" (used only if
-// the parser under test accepts it, see pmsOrderAccepted)
+// parser accepted when this check was written); order 1: the PMS order "f(+)="
 func (u UseDep) Text(order int) string {
 	pre := []string{"", "-", "", "!", "", "!"}[u.Form]
 	suf := []string{"", "", "=", "=", "?", "?"}[u.Form]
@@ -117,19 +115,9 @@ func useString(us []UseDep, order int) string {
 	return "[" + strings.Join(parts, ",") + "]"
 }
 
-var pmsOrderOnce sync.Once
-var pmsOrderOK bool
-
-// does the parser under test accept "[flag(+)=]"?  (parsing is property C14's business; this
-// check only chooses among the spellings the parser takes)
-func pmsOrderAccepted() bool {
-	pmsOrderOnce.Do(func() {
-		defer func() { recover() }()
-		deps, err := depend.DecodeDependencies([]byte("c/p[f(+)=,g(-)?]"))
-		pmsOrderOK = err == nil && len(deps) == 1
-	})
-	return pmsOrderOK
-}
+// "[flag(+)=]" is the order PMS writes; the parser's answer to it is an OBSERVATION (a parser that
+// refuses it yields OErr where the model predicts a match), never a reason not to generate it
+func pmsOrderAccepted() bool { return true }
 
 func (in Input) DepString() string {
 	s := []string{"", "!", "!!"}[in.Block]
